@@ -106,6 +106,13 @@ GLOBAL_RULES = [
     ('G_P5_temp_guard', r'self\.wakers\.readiness\(\)\.(\w+)\(([^;]*?)\);', r'self.wakers.lock(); self.wakers.\1(\2); self.wakers.unlock();'),
     # a waker invocation that is not the P10-ported parent wake of the waker units (e.g. a self-wake `cx.waker().wake_by_ref()`)
     ('G_wake_by_ref_plain', r'\.wake_by_ref\(\)', r'.wake_by_ref_plain()'),
+    # Verus reports only the first failing pre-condition of a call: check the per-property groups separately (ghost)
+    ('G_split_child_poll_preconditions',
+     r'(self\.\w+)\.(poll_child|poll_next_child)\(([^,()]+), &mut cx, &mut self\.wakers\)',
+     r'({ proof { \1.chk_sel(\3, &self.wakers); \1.chk_wake(\3, &cx, &self.wakers); \1.chk_own(\3); } \1.\2(\3, &mut cx, &mut self.wakers) })'),
+    ('G_split_member_poll_preconditions',
+     r'(self\.\w+)\.(poll_member|poll_next_member)\(([^,()]+), &mut cx, &mut self\.wakers\)',
+     r'({ proof { \1.kids.chk_sel(\3, &self.wakers); \1.kids.chk_wake(\3, &cx, &self.wakers); \1.kids.chk_own(\3); } \1.\2(\3, &mut cx, &mut self.wakers) })'),
     ('G_N8_map_or_poll', r'\b(\w+)\.map_or\(\s*Poll::Pending\s*,\s*Poll::Ready\s*\)', r'(match \1 { Some(v_) => Poll::Ready(v_), None => Poll::Pending })'),
 ]
 
